@@ -339,15 +339,25 @@ def c12_structure(units, R):
     true_rets = [r for r in cfg.returns() if r.expr is not None and const_val(r.expr) not in (None, 0)]
     # arrays: `return true` only when both cursors are exhausted
     sw, start, region = arm_region(32)
-    cursors = []
+    # the element cursors: locals that the arm points at the first child of a / of b (declaration, assignment or the
+    # cJSON_ArrayForEach macro)
+    cur = {}
     for n in cfg.nodes:
-        if n.id in region and n.kind == 'decl' and 'init' in n.decl:
-            i = strip_casts(n.decl['init'])
-            if i.get('k') == 'mem' and i['f'] == 'child':
-                cursors.append(n.decl)
-    if len(cursors) != 2:
-        raise AnalysisBroken('C12: array arm of cJSON_Compare does not have two element cursors')
-    ca, cb = cursors[0]['d'], cursors[1]['d']
+        if n.id not in region:
+            continue
+        for ev in node_effects(n):
+            if ev.kind == 'declinit' and ev.rhs is not None:
+                d, rhs = ev.lhs['d'], ev.rhs
+            elif ev.kind == 'store' and ev.node['op'] == '=' and is_ref(ev.lhs) and strip_casts(ev.lhs).get('dk') == 'local':
+                d, rhs = strip_casts(ev.lhs)['d'], ev.node['r']
+            else:
+                continue
+            for x in walk(rhs):
+                if x.get('k') == 'mem' and x['f'] == 'child' and is_ref(x['b']) and strip_casts(x['b'])['d'] in (pa['d'], pb['d']):
+                    cur.setdefault(strip_casts(x['b'])['d'], set()).add(d)
+    if len(cur.get(pa['d'], ())) != 1 or len(cur.get(pb['d'], ())) != 1:
+        raise AnalysisBroken('C12: array arm of cJSON_Compare does not have one element cursor per array')
+    ca, cb = next(iter(cur[pa['d']])), next(iter(cur[pb['d']]))
 
     def tr(node, st):
         st = set(st)
